@@ -11,7 +11,6 @@ import (
 	"testing"
 
 	openfgav1 "github.com/openfga/api/proto/openfga/v1"
-	"google.golang.org/protobuf/proto"
 
 	"github.com/openfga/language/pkg/go/transformer"
 	"github.com/openfga/language/pkg/go/utils"
@@ -28,6 +27,9 @@ var modulePool = []transformer.ModuleFile{
 	{Name: "doc-again.fga", Contents: "module docagain\ntype doc2\ntype doc\n"},
 	{Name: "cond.fga", Contents: "module cond\ntype team\n  relations\n    define member: [user with c]\n\ncondition c(x: int) {\n  x < 1\n}\n"},
 	{Name: "cond-again.fga", Contents: "module condagain\ncondition c2(y: int) {\n  y < 2\n}\n\ncondition c(y: int) {\n  y < 2\n}\n"},
+	{Name: "same-name-two-types.fga", Contents: "module samename\nextend type org\n  relations\n    define viewer: [user]\nextend type doc\n  relations\n    define viewer: [user]\n"},
+	{Name: "short-name.fga", Contents: "module shortname\nextend type doc\n  relations\n    define e: [user]\n"},
+	{Name: "short-name-again.fga", Contents: "module shortnameagain\nextend type doc\n  relations\n    define e: [user]\n"},
 	{Name: "plain-model.fga", Contents: "model\n  schema 1.1\ntype standalone\n"},
 	{Name: "broken.fga", Contents: "module broken\ntype\n"},
 }
@@ -468,13 +470,16 @@ func checkErrorSet(r map[string]*boundedReport, id string, files []transformer.M
 				if i := strings.Index(name, "#"); i >= 0 {
 					name = name[i+1:]
 				}
-				if lines[ls][cs:ce] != name {
-					r["C16"].violation("column-span-not-the-name", id, "%s %q in %s: columns %d-%d of %q", c.kind, c.name, c.file, cs, ce, lines[ls])
-				} else if after := lines[ls][:cs]; strings.Contains("define type condition extend", strings.TrimSpace(after)) && false {
-					_ = after
-				} else if nameToken := strings.LastIndex(strings.SplitN(lines[ls], ":", 2)[0]+" ", name+" "); strings.HasPrefix(strings.TrimSpace(lines[ls]), "define ") && cs != strings.Index(lines[ls], "define ")+len("define ") {
-					_ = nameToken
-					r["C16"].violation("column-not-on-the-declared-name", id, "%s %q in %s: column %d of %q is not where the declared name stands", c.kind, c.name, c.file, cs, lines[ls])
+				// the column span must be the declared name token itself (right after the keyword)
+				wantCol := -1
+				for _, kw := range []string{"define ", "extend type ", "type ", "condition "} {
+					if i := strings.Index(lines[ls], kw); i >= 0 && strings.HasPrefix(strings.TrimSpace(lines[ls]), kw) {
+						wantCol = i + len(kw)
+						break
+					}
+				}
+				if cs != wantCol || ce != wantCol+len(name) {
+					r["C16"].violation("column-not-on-the-declared-name", id, "%s %q in %s: columns %d-%d of %q, the name stands at %d-%d", c.kind, c.name, c.file, cs, ce, lines[ls], wantCol, wantCol+len(name))
 				}
 			}
 		}
